@@ -43,6 +43,10 @@ type TOp struct {
 }
 
 type TreePlan struct {
+	// MinSize is the initial size of the backing buffer in bytes (0: the
+	// built-in 1 MiB). Small values make the buffer grow (reallocate / remap)
+	// after a few page allocations.
+	MinSize    int   `json:"min_size,omitempty"`
 	PageSize   int   `json:"page_size"`
 	Persistent bool  `json:"persistent"`
 	Ops        []TOp `json:"ops"`
@@ -57,6 +61,15 @@ func genTree(seed uint64, reopen bool) *TreePlan {
 	p := &TreePlan{}
 	p.PageSize = []int{80, 80, 96, 128, 128, 256, 1024, os.Getpagesize()}[r.IntN(8)]
 	p.Persistent = reopen || r.IntN(3) == 0
+	if r.IntN(3) != 0 {
+		// tuning knob: how many pages the buffer holds before its first growth
+		// (at least three pages: a persistent tree reads its root page, page 1,
+		// from the freshly created file, whose usable size is 8 bytes short)
+		p.MinSize = p.PageSize * []int{3, 3, 4, 5, 8, 16, 64}[r.IntN(7)]
+		if r.IntN(4) == 0 {
+			p.MinSize += []int{1, 8, 9, p.PageSize / 2, p.PageSize - 1}[r.IntN(5)] // not a multiple of the page size
+		}
+	}
 	model := map[uint64]uint64{}
 	var keys []uint64 // insertion-ordered list of keys ever set (may contain deleted ones)
 	nops := 20 + r.IntN(380)
@@ -331,6 +344,8 @@ func runTree(plan *TreePlan, prop string, dir string) (res *RunResult) {
 	res = &RunResult{}
 	old := z.VerifSetPageSize(plan.PageSize)
 	defer z.VerifSetPageSize(old)
+	oldMin := z.VerifSetTreeMinSize(plan.MinSize)
+	defer z.VerifSetTreeMinSize(oldMin)
 	if plan.Persistent {
 		t.path = filepath.Join(dir, "tree.buf")
 		os.Remove(t.path)
